@@ -94,6 +94,7 @@ def main(argv=None):
     ap.add_argument("--jobs", type=int, default=min(H.NSHARDS, os.cpu_count() or 4))
     ap.add_argument("--repo", default=os.environ.get("VMON_REPO", "/repo"))
     ap.add_argument("--no-evidence", action="store_true")
+    ap.add_argument("--verbose", "-v", action="store_true", help="list distinct witnesses per mechanism")
     a = ap.parse_args(argv)
     prop = a.prop.upper() if a.prop.lower() != "selftest" else "selftest"
 
@@ -149,6 +150,14 @@ def _run(a, prop, work, t0):
         w = v["witness"]
         brief = {k: w[k] for k in ("show", "route", "got", "want", "error", "note") if isinstance(w, dict) and k in w}
         lines.append("  " + json.dumps(brief or w, default=str)[:700])
+        if a.verbose:
+            seen = set()
+            for vv in by_mech[mech]:
+                sh = vv["witness"].get("show", {}) if isinstance(vv["witness"], dict) else {}
+                key = json.dumps(sh.get("expr", sh.get("exprs", sh)), default=str)[:300]
+                if key not in seen:
+                    seen.add(key)
+                    lines.append("    - " + key + "  " + json.dumps({k: vv["witness"].get(k) for k in ("reported", "got", "want", "error", "wrt", "entry") if k in vv["witness"]}, default=str)[:200])
         rc = 1
 
     # ---- inconclusive --------------------------------------------------
